@@ -7,6 +7,7 @@ import (
 	"context"
 	"fmt"
 	"os"
+	"strings"
 
 	"github.com/canopy-network/canopy/fsm"
 	"github.com/canopy-network/canopy/lib"
@@ -295,6 +296,7 @@ func Run(r *sim.Rng, nChains, perChain int, outDir string, wCert *sim.CaseWriter
 			a.n.FSM.Reset() // drop it: the block below is built on the committed state of both twins
 			// ---- a block of several certificate-results transactions: twin A gets all, twin B only those that succeed on A
 			var txs [][]byte
+			var mustSucceed []byte
 			// sometimes the block is the pattern [ok, FAILING-after-it-slashed, ok] around ONE validator V: V reported as a double
 			// signer at h1; then V settled as a non-signer (slashed first) and reported at h1 AGAIN (already indexed by now: the
 			// transaction fails); then V settled as a non-signer and reported at h2 - near the per-committee cap, which is kept in the
@@ -312,11 +314,22 @@ func Run(r *sim.Rng, nChains, perChain int, outDir string, wCert *sim.CaseWriter
 						}
 						t1, _ := a.build(r, ds(h1), a.height, k) // V signs none of the three: its miss in one is settled (slashed) at the start of the next
 						tF, _ := a.build(r, ds(h1), a.height+1, k)
+						// or: the failing transaction names (V, h2) TWICE - the first is written to the double-signer index, the second is
+						// refused and the transaction fails; the index entry must go with it, or the well-formed report of (V, h2) right
+						// behind it is refused as "already slashed" and V is never slashed for h2
+						indexedThenFailed := r.Bool()
+						if indexedThenFailed {
+							tF, _ = a.build(r, &lib.CertificateResult{SlashRecipients: &lib.SlashRecipients{DoubleSigners: []*lib.DoubleSigner{{Id: V, Heights: []uint64{uint64(h2), uint64(h2)}}}}}, a.height+1, k)
+						}
 						t3, _ := a.build(r, ds(h2), a.height+1, k)
 						if t1 != nil && tF != nil && t3 != nil {
 							txs = append(txs, t1, tF, t3)
 							a.height += 2
 							count("certificate-block:scripted-ok-failing-ok")
+							if indexedThenFailed {
+								mustSucceed = t3
+								count("certificate-block:failing-transaction-had-written-to-the-index")
+							}
 						}
 					}
 				}
@@ -339,6 +352,10 @@ func Run(r *sim.Rng, nChains, perChain int, outDir string, wCert *sim.CaseWriter
 			failed := map[string]bool{}
 			for _, f := range oa.Results.Failed {
 				failed[f.Hash] = true
+			}
+			if mustSucceed != nil && failed[crypto.HashString(mustSucceed)] && strings.Contains(failedErr(oa.Results, mustSucceed), "double signer") {
+				sim.Direct(outDir, map[string]any{"finding": "failed-transaction-left-trace", "kind": "a well-formed double-signer report is refused because the FAILED transaction before it had written the same (validator, height) pair to the index",
+					"error": failedErr(oa.Results, mustSucceed)})
 			}
 			var good [][]byte
 			for _, t := range txs {
@@ -450,4 +467,14 @@ func (c *certChain) repeatedDoubleSigner(r *sim.Rng, outDir string, count func(s
 		sim.Direct(outDir, map[string]any{"finding": "double-signer-slashed-twice-for-one-height", "kind": "the same (validator, height) pair was slashed by the nested committee's certificate and again by the root committee's",
 			"stake_before": s0, "after_first": s1, "after_second": s2})
 	}
+}
+
+func failedErr(res *lib.ApplyBlockResults, tx []byte) string {
+	h := crypto.HashString(tx)
+	for _, f := range res.Failed {
+		if f.Hash == h && f.Error != nil {
+			return f.Error.Error()
+		}
+	}
+	return ""
 }
